@@ -1432,6 +1432,12 @@ fn knn_classifier(c: &mut Case) {
     with_metric!(inp.metric, d => cls_run(c, &inp, d));
 }
 
+/// the uniform api traits (Predictor / SupervisedEstimator / UnsupervisedEstimator / Transformer) behave
+/// exactly like the inherent methods
+fn api_paths_fam(c: &mut Case) {
+    scverif::apipaths::case(c, "C04")
+}
+
 fn main() {
     runner::main(Spec {
         property: "C04",
@@ -1446,6 +1452,7 @@ fn main() {
             "construction panics of the two degenerate classes (covertree/n=1, covertree/all-identical) are reported for their first 3000 occurrences per run and only counted afterwards (the runner keeps at most 20000 violation records)",
         ],
         families: vec![
+            Family::new("api_paths", 300, 3000, api_paths_fam),
             Family::new("search", 12000, 500000, search),
             Family::new("lattice3x3", LATTICE_MULTISETS, LATTICE_MULTISETS, lattice3x3).exhaustive(true, true),
             Family::new("heap", 6000, 200000, heap),
